@@ -10,6 +10,7 @@ CONSTANTS
   MaxHold = 0
   MaxSick = 1
   MaxReset = 1
+  MaxIdle = 0
   AllowReset = TRUE
   Depth = 10
 CHECK_DEADLOCK FALSE
